@@ -1273,3 +1273,106 @@ B('c14-benign-inline-bound', 'C14', F,
         integer = self.struct_obj.unpack(raw[offset:next_offset])[0]''',
   '''        next_offset = offset + self.byte_count
         integer = self.struct_obj.unpack(raw[offset:offset + self.byte_count])[0]''')
+
+# =========================================================================== C08
+S('c08-count-loop-from-one', 'C08', SF, '''        for _ in range(count_elements):''', '''        for _ in range(1, count_elements):''', 'C08-sequence-unpack')
+S('c08-until-before-first', 'C08', SF,
+  '''        for _ in range(count_elements):
+            offset += (aligned_to - (offset % aligned_to)) % aligned_to
+            offset = unpack(pkt=pkt, raw=raw, offset=offset, **k)
+
+            # because''',
+  '''        for _ in range(count_elements if self.until_condition is None else 0):
+            offset += (aligned_to - (offset % aligned_to)) % aligned_to
+            offset = unpack(pkt=pkt, raw=raw, offset=offset, **k)
+
+            # because''', 'C08-sequence-unpack')
+S('c08-when-false-advances', 'C08', SF,
+  '''            or not when(pkt=pkt, raw=raw, offset=offset, **k)
+        ):
+            return offset''',
+  '''            or not when(pkt=pkt, raw=raw, offset=offset, **k)
+        ):
+            return offset + (aligned_to - (offset % aligned_to)) % aligned_to''')
+S('c08-append-other-list', 'C08', SF,
+  '''        append = sequence.append''', '''        append = list(sequence).append''', 'C08-sequence-unpack')
+S('c08-list-stored-late', 'C08', SF,
+  '''        sequence = []
+        setattr(
+            pkt, self.field_name, sequence
+        )  # clean up the previous sequence (if any),
+        # so it can be used by the 'when' or 'until' callbacks
+
+        count_elements = 1 if not self.get_how_many_elements else \\
+                           self.get_how_many_elements(pkt=pkt, raw=raw, offset=offset, **k)
+''',
+  '''        sequence = []
+
+        count_elements = 1 if not self.get_how_many_elements else \\
+                           self.get_how_many_elements(pkt=pkt, raw=raw, offset=offset, **k)
+        setattr(
+            pkt, self.field_name, sequence
+        )
+''', 'C08-sequence-unpack')
+S('c08-until-not-negated-in-loop', 'C08', SF,
+  '''            append(getattr(pkt, seq_elem_field_name))
+            should_continue = not until(pkt=pkt, raw=raw, offset=offset, **k)''',
+  '''            append(getattr(pkt, seq_elem_field_name))
+            should_continue = should_continue and not until(pkt=pkt, raw=raw, offset=offset, **k) or len(sequence) < 2''', 'C08-sequence-unpack')
+S('c08-until-before-append', 'C08', SF,
+  '''            append(getattr(pkt, seq_elem_field_name))
+            should_continue = not until(pkt=pkt, raw=raw, offset=offset, **k)''',
+  '''            should_continue = not until(pkt=pkt, raw=raw, offset=offset, **k)
+            append(getattr(pkt, seq_elem_field_name))''', 'C08-sequence-unpack')
+S('c08-optional-stores-stale', 'C08', SF,
+  '''        opt_elem_field_name = self.opt_elem_field_name
+        obj = None
+        if proceed:''',
+  '''        opt_elem_field_name = self.opt_elem_field_name
+        obj = getattr(pkt, opt_elem_field_name, None)
+        if proceed:''', 'C08-optional')
+S('c08-optional-pack-emits-for-none', 'C08', SF,
+  '''        if obj is not None:
+            setattr(pkt, opt_elem_field_name, obj)
+            return self.prototype_field.pack(pkt, fragments, **k)
+
+        else:
+            return fragments''',
+  '''        if obj is None:
+            obj = self.prototype_field.default
+        setattr(pkt, opt_elem_field_name, obj)
+        return self.prototype_field.pack(pkt, fragments, **k)''', 'C08-optional')
+S('c08-sequence-pack-reversed', 'C08', SF, '''        for val in sequence:
+            setattr(pkt, seq_elem_field_name, val)''', '''        for val in sequence[::-1]:
+            setattr(pkt, seq_elem_field_name, val)''', 'C08-sequence-pack')
+S('c08-ref-returns-own-offset', 'C08', F,
+  '''        p = self.proto_class(_initialize_fields=False)
+        setattr(pkt, self.field_name, p)
+        return p.unpack_impl(**k)''',
+  '''        p = self.proto_class(_initialize_fields=False)
+        setattr(pkt, self.field_name, p)
+        p.unpack_impl(**k)
+        return k['offset']''', 'C08-ref')
+S('c08-ref-pack-without-packing-flag', 'C08', F,
+  '''            pkt=pkt, fragments=fragments, packing=True, **k
+        )''', '''            pkt=pkt, fragments=fragments, **k
+        )''', 'C08-ref')
+S('c08-count-field-name-late', 'C08', SF,
+  '''        count_raw_condition = lambda pkt, **k: getattr(pkt, field_name)''',
+  '''        count_raw_condition = lambda pkt, **k: getattr(pkt, field_name, 0) or 1''', 'C08-normalisers')
+S('c08-tmp-order', 'C08', SF, '''        self.tmp = (count, until, when)''', '''        self.tmp = (count, when, until)''', 'C08-normalisers')
+S('c08-late-binding-closure', 'C08', DF,
+  '''            for value in arglist:
+                compile_expr(value, ops, level=next_level)
+''',
+  '''            for value in arglist:
+                compile_expr(value, ops, level=next_level)
+                ops.append(0, lambda pkt, *vargs, **kargs: value, level, 'peek')
+                ops.ops.pop()
+''', 'C08-no-late-binding')
+B('c08-benign-while-true', 'C08', SF,
+  '''        for val in sequence:
+            setattr(pkt, seq_elem_field_name, val)''',
+  '''        for element in sequence:
+            val = element
+            setattr(pkt, seq_elem_field_name, val)''')
